@@ -7,8 +7,8 @@ package under /dev/shm, the checks are pointed at it through VERIF_REPO_ROOT, an
 per check, how many kernel-lemma obligations became inconclusive (a lemma may degrade; the verdict must not).
 
 usage: tools/equiv_rewrites.py [C01 C05 ...]        (default: all twenty)
-Never touches /repo.  Removes the scratch copy on exit.  Evidence written while it runs describes the scratch copy:
-re-run the checks against /repo afterwards (the script does so for the checks it ran unless --no-restore is given)."""
+Never touches /repo nor /verif/evidence (evidence and replays of the trial go to the scratch copy).  Removes the scratch
+copy on exit."""
 import json
 import os
 import shutil
@@ -67,13 +67,13 @@ def main():
             open(p, 'w').write(s.replace(old, new, 1))
             applied += 1
         print('%d/%d rewrites applied' % (applied, len(REWRITES)))
-        env = dict(os.environ, VERIF_REPO_ROOT=top)
+        env = dict(os.environ, VERIF_REPO_ROOT=top, VERIF_EVIDENCE_DIR=os.path.join(top, 'ev'), VERIF_REPLAY_DIR=os.path.join(top, 'replays'))
         for cid in ids:
             r = subprocess.run([os.path.join(HERE, 'check'), cid], env=env, capture_output=True, text=True)
             viol = [l for l in r.stdout.splitlines() if l.startswith('VIOLATION')]
             ev = {}
             try:
-                ev = json.load(open(os.path.join(HERE, 'evidence', cid + '.json')))
+                ev = json.load(open(os.path.join(top, 'ev', cid + '.json')))
             except Exception:
                 pass
             inc = ev.get('coverage', {}).get('kernel_lemma_obligations_inconclusive', 0)
@@ -84,9 +84,6 @@ def main():
                 print(r.stdout[-1500:])
     finally:
         shutil.rmtree(top, ignore_errors=True)
-    if '--no-restore' not in sys.argv:
-        for cid in ids:
-            subprocess.run([os.path.join(HERE, 'check'), cid], capture_output=True, text=True)
     return 1 if bad else 0
 
 
